@@ -149,6 +149,14 @@ func fromModelInto(e *secp256k1.Element, p ref.Point, via string) (*secp256k1.El
 	}
 	var err error
 	switch via {
+	case "limbs":
+		// white-box: the coordinates are written as Montgomery limbs computed by the model (no decoder of the tree under test is
+		// involved in building the operand); API-only builds fall back to DecodeCoordinates
+		if Calibrated() {
+			setRawLimbs(e, toMont(p.X), toMont(p.Y), toMont(big.NewInt(1)))
+			return e, nil
+		}
+		err = e.DecodeCoordinates([32]byte(ref.Bytes32(p.X)), [32]byte(ref.Bytes32(p.Y)))
 	case "comp":
 		err = e.Decode(ref.Compress(p))
 	case "uncomp":
@@ -560,7 +568,7 @@ func BaseGen() *rapid.Generator[Base] {
 			b.Endo = rapid.IntRange(1, 2).Draw(t, "e")
 		}
 		b.Neg = rapid.IntRange(0, 7).Draw(t, "neg") == 0
-		b.Via = rapid.SampledFrom([]string{"coords", "comp", "uncomp"}).Draw(t, "via")
+		b.Via = rapid.SampledFrom([]string{"coords", "comp", "uncomp", "limbs"}).Draw(t, "via")
 		b.Reuse = gen.Chance(t, "reuse", 1, 4)
 		b.ZeroRecv = !b.Reuse && gen.Chance(t, "zeroRecv", 1, 5)
 		return b
